@@ -332,6 +332,8 @@ type spyVault struct {
 	hook func(e *Event)
 	// readHook, if set, is called after each Read of a plan has returned (may block)
 	readHook func(id uuid.UUID)
+	// fail, if set and returning an error, makes the write fail with that error without reaching the store
+	fail func(e *Event) error
 }
 
 func (v *spyVault) Read(ctx context.Context, id uuid.UUID) (*workflow.Plan, error) {
@@ -363,7 +365,13 @@ func (v *spyVault) write(l string, id uuid.UUID, img *ObjImg, f func() error) er
 		v.hook(&e)
 	}
 	v.tr.add(e)
-	err := f()
+	var err error
+	if v.fail != nil {
+		err = v.fail(&e)
+	}
+	if err == nil {
+		err = f()
+	}
 	e2 := Event{L: l, Obj: obj, Plan: plan, Phase: "post", Img: img}
 	if err != nil {
 		e2.Err = err.Error()
